@@ -155,6 +155,13 @@ def run_once(scn, ri, db, emit, seq_cfg=None):
             return self._logged("clean3", super().update_job_names_by_root_span)
 
         def find_unique_graphs(self):
+            if run.get("filter") is not None:
+                # an arbitrary name -> trace-id filter supplied by the scenario instead of the unique-graph selection
+                r = {}
+                for n, j in run["filter"]:
+                    r.setdefault(n, set()).add(j)
+                line("filter", sel=sorted([n, j] for n, js in r.items() for j in js))
+                return r
             try:
                 r = super().find_unique_graphs()
             except BaseException as e:
